@@ -43,7 +43,7 @@ type c29GetWant struct {
 	OptTail []*rbRec // within the band around the end: may be present or not
 	// Weak: only under the known tail-cut defect, when samples of this track before the end of the window sit in
 	// parts that are not read at all: then which lead-in survives is a consequence of that defect, and only
-	// "contiguous, ordered, nothing at or after the end of the window" is checked for the track.
+	// "recorded samples, in order, nothing at or after the end of the window" is checked for the track.
 	Weak     bool
 	WeakPool []*rbRec // every recorded sample of the track before the end of the window
 }
@@ -201,7 +201,8 @@ func c29CheckGet(got []rbOutTrack, want []c29GetWant, spec *rbSpec, s time.Time,
 						ok = bytes.Equal(samples[i].Payload, r.Payload)
 					}
 				}
-				if !ok || (i > 0 && id != ids[i-1]+1) {
+				// (not necessarily contiguous: after stopping early inside one segment, /get goes on with the next one)
+				if !ok || (i > 0 && id <= ids[i-1]) {
 					return fmt.Errorf("(weak check behind %s) unit %d unexpected: %s", c29KeyTailCut, id, describe)
 				}
 			}
@@ -662,6 +663,22 @@ func c29OneGet(srv *Server, disk []rbDiskSession, spec *rbSpec, s time.Time, d t
 		}
 		if firstErr == nil {
 			firstErr = err
+		}
+	}
+	if os.Getenv("C29_DEBUG") != "" {
+		for gi, sg := range disk[run].Segs {
+			for pi, pa := range sg.Info.Parts {
+				fmt.Printf("DEBUG seg%d part%d [%d,%d):", gi, pi, pa.Off, pa.End)
+				for _, tr := range pa.Trafs {
+					fmt.Printf(" tr%d base=%d n=%d", tr.TrackID, tr.BaseTime, len(tr.Samples))
+					for _, sa := range tr.Samples {
+						_, _, idx, _ := rbParseTag(sg.Data[sa.Off : sa.Off+int(sa.Size)])
+						fmt.Printf(" u%d", idx)
+					}
+				}
+				fmt.Println()
+			}
+			fmt.Printf("DEBUG seg%d size %d trailing %d\n", gi, len(sg.Data), sg.Info.TrailingOffset)
 		}
 	}
 	return fmt.Errorf("%v [query %s]\nlayout around the start: %s", firstErr, q.Encode(), c29Layout(&disk[run], spec, s))
